@@ -314,7 +314,7 @@ func importKnownRef(entry sortref.RefRevIdx, refStr, newName string, opts *Flatt
 	// rewrite ref with already resolved external ref (useful for cyclical refs):
 	// rewrite external refs to local ones
 	debugLog("resolving known ref [%s] to %s", refStr, newName)
-	verifEmit("import.known", opts.Swagger(), refStr, newName, strings.Join(entry.Keys, "\x00"))
+	verifEmit("import.known", opts.Swagger(), entry.Ref.String(), newName, strings.Join(entry.Keys, "\x00"))
 
 	for _, key := range entry.Keys {
 		if err := replace.UpdateRef(opts.Swagger(), key, spec.MustCreateRef(path.Join(definitionsPath, newName))); err != nil {
@@ -386,7 +386,7 @@ func importNewRef(entry sortref.RefRevIdx, refStr string, opts *FlattenOpts) err
 
 	// add the resolved schema to the definitions
 	schutils.Save(opts.Swagger(), newName, sch)
-	verifEmit("import.new", opts.Swagger(), refStr, newName, strings.Join(entry.Keys, "\x00"))
+	verifEmit("import.new", opts.Swagger(), entry.Ref.String(), newName, strings.Join(entry.Keys, "\x00"))
 
 	return nil
 }
